@@ -184,7 +184,8 @@ class TU:
         if 'id' in n:
             self.byid[n['id']] = n; self.scope_of[n['id']] = scope
         if k == 'NamespaceDecl':
-            for c in n.get('inner', []): self.index(c, scope + [name])
+            # an unnamed namespace contributes no name component (clang prints its members as ns::(anonymous namespace)::x)
+            for c in n.get('inner', []): self.index(c, scope + ([name] if name else ['(anonymous namespace)']))
         elif k == 'CXXRecordDecl':
             if n.get('isImplicit'): return
             if not n.get('completeDefinition'): return
@@ -311,6 +312,11 @@ class Types:
         if m:
             return self.named(m.group(2)) + ' *'
         if re.match(r'^std::unordered_map<ASAM::CMP::Decoder::Endpoint, ASAM::CMP::Decoder::SegmentedPacket', q):
+            return 'struct map_slot'
+        # iterators of that map (single-slot view: "the element of the observed key" or end()), and the element they refer to
+        if re.match(r'^std::__detail::_Node_(const_)?iterator(_base)?<std::pair<const ASAM::CMP::Decoder::Endpoint, ASAM::CMP::Decoder::SegmentedPacket>', q):
+            return 'struct map_it'
+        if re.match(r'^std::pair<const ASAM::CMP::Decoder::Endpoint, ASAM::CMP::Decoder::SegmentedPacket>$', q):
             return 'struct map_slot'
         if q in ('std::basic_string_view<char>', 'std::string_view', 'std::basic_string_view<char, std::char_traits<char>>'):
             return 'struct sv'
@@ -445,6 +451,7 @@ class FnEmitter:
         self.loop_no = 0
         self.call_counts = collections.Counter()
         self.ptr_iter = {}
+        self.it_locals = []         # locals that are iterators of the reassembly map (declared so far)
         self.stmt_calls = []        # calls seen while emitting the current statement
         self.ret_no = 0
         self.tmp_no = 0
@@ -615,7 +622,10 @@ class FnEmitter:
         base = self.e(inner)
         arrow = n['isArrow']
         if inner.get('kind') == 'MemberExpr' and not inner.get('name'): arrow = inner['isArrow']
-        s = f"{base}{'->' if arrow else '.'}{n['name']}"
+        mname = n['name']
+        if d is None and mname in ('first', 'second') and self.T.std_model(self.T.strip_cv(re.sub(r'\s*\*\s*(const)?$', '', norm_std(self.ty(inner))))) == 'struct map_slot':
+            mname = {'first': 'key', 'second': 'value'}[mname]      # std::pair<const Endpoint, SegmentedPacket> is the slot itself
+        s = f"{base}{'->' if arrow else '.'}{mname}"
         if d is not None and d.get('kind') == 'FieldDecl' and self.T.is_ref(tstr(d['type'])):
             return f"(*{s})"
         if d is not None and d.get('kind') == 'VarDecl':
@@ -899,6 +909,14 @@ class FnEmitter:
     def wrapg(self, g, lines, p):
         return g + lines
 
+    def the_map(self):
+        """C expression for the address of the reassembly map of *this (a Decoder has exactly one): iterators carry no pointer in the model"""
+        r = self.ctx.records.get(self.fn.rec) if self.fn.rec else None
+        if r is None or self.fn.static: raise Unsupported('map iterator outside a member function of the class that owns the map')
+        names = [nm for nm, t, _ in r.fields if nm and self.T.std_model(self.T.strip_cv(norm_std(tstr(t)))) == 'struct map_slot']
+        if len(names) != 1: raise Unsupported('map iterator: the class does not own exactly one reassembly map')
+        return f"(&this->{names[0]})"
+
     def pointer_iterator(self, init, inc, body):
         """(var id, name, base expression) if the for-loop declares exactly one pointer variable initialised from a pointer PARAMETER, its increment is
         ++var / var++, and the body never writes to var or takes its address; else None"""
@@ -942,6 +960,7 @@ class FnEmitter:
             raise Unsupported('function-local static variable ' + v.get('name', ''))
         q = tstr(v['type']); name = v['name']
         self.tu.byid[v['id']] = v
+        if self.T.std_model(self.T.strip_cv(norm_std(q))) == 'struct map_it': self.it_locals.append(name)
         init = [c for c in v.get('inner', []) if 'Attr' not in c.get('kind', '')]
         self.stmt_calls = []
         if self.T.is_ref(q):
@@ -1005,7 +1024,23 @@ class FnEmitter:
         k = self.loop_no; self.loop_no += 1
         if self.spec and k in self.spec.loops:
             self.used_anchors.add(('loop', k))
-            return self.gen.tag_lines(self.spec, self.spec.loops[k])
+            lines = self.gen.tag_lines(self.spec, self.spec.loops[k])
+            if self.it_locals:
+                # iterators of the reassembly map that are live across the loop: the loop may reassign them, and at every loop head each one is
+                # in step with the map: end() when the observed key has no element, else referring to the live element (erase invalidates it) - generated
+                # mechanically from the declarations, so that code which keeps an iterator needs no hand-written invariant
+                out = []; done = False
+                for l in lines:
+                    if not done and str(l).lstrip().startswith('__CPROVER_assigns(') and not re.match(r'^\s*__CPROVER_assigns\(\s*\)', str(l)):
+                        t = str(l); i = t.index('(') + 1
+                        l = SpecLine(t[:i] + ', '.join(self.it_locals) + ', ' + t[i:], l.path, l.line, l.tags); done = True
+                    out.append(l)
+                if not done: raise Unsupported('loop contract without an assigns clause in a function with map iterators')
+                pos = next((i for i, l in enumerate(out) if str(l).lstrip().startswith('__CPROVER_decreases')), len(out))
+                for nm in self.it_locals:
+                    out.insert(pos, SpecLine(f"__CPROVER_loop_invariant({nm}.at_end != 0 ? {self.the_map()}->present == 0 : ({nm}.epoch == {self.the_map()}->epoch && {self.the_map()}->present != 0))", lines[0].path, lines[0].line, ['C02:map.iterator_valid_at_loop_head']))
+                return out
+            return lines
         return []
 
     def ghost(self, anchor, p, mark=True):
@@ -1081,6 +1116,8 @@ class StdRules:
                 em.note_call('vec_u8_copy'); return f"vec_u8_copy({em.addr(args[0])})"
             if len(params) == 1 and p0.endswith('&&'):
                 em.note_call('vec_u8_move'); return f"vec_u8_move({em.addr(args[0])})"
+        if cty == 'struct map_it' and len(params) == 1 and len(args) == 1:
+            return em.e(args[0])      # copy / move / iterator -> const_iterator conversion: the same position
         if cty == 'struct vec_frames':
             if not params: return 'vec_frames_make_empty()'
             if len(params) == 1 and params[0].endswith('&&'):
@@ -1173,8 +1210,25 @@ class StdRules:
             if name == 'get': return o
             if name == 'operator bool': return f"({o} != 0)"
         if cty == 'struct map_slot':
+            if name == 'erase' and len(args) == 1 and self.T.std_model(self.T.strip_cv(self.T.strip_ref(em.ty(args[0])))) == 'struct map_it':
+                em.note_call('map_slot_erase_it'); return f"map_slot_erase_it({objp}, {em.e(args[0])})"
+            if name == 'find' and len(args) == 1:
+                em.note_call('map_slot_find'); return f"map_slot_find({objp}, {em.e(args[0])})"
+            if name in ('end', 'cend') and not args:
+                return f"map_slot_end({objp})"
             if name == 'erase':
                 em.note_call('map_slot_erase'); return f"map_slot_erase({objp}, {em.e(args[0])})"
+            if name in ('emplace', 'try_emplace') and len(args) > 2:
+                # piecewise form: the mapped value is constructed in place from the remaining arguments, and only if the key is absent.
+                # The model constructs the value first (the constructor is pure apart from allocation) and inserts it if absent.
+                rq = 'ASAM::CMP::Decoder::SegmentedPacket'
+                cands = [f for f in self.ctx.funcs.values() if f.rec == rq and f.kind == 'CXXConstructorDecl' and len(f.params) == len(args) - 1 and f.body is not None
+                         and not (len(f.params) == 1 and self.T.record_of(tstr(f.params[0]['type'])) == rq)]
+                if len(cands) != 1: raise Unsupported(f'unordered_map::{name} with {len(args) - 1} constructor arguments: no unique SegmentedPacket constructor')
+                f = cands[0]; mk = self.gen.make_wrapper(f); em.note_call(f.cname)
+                a = [em.value_for_param(x, tstr(p['type'])) for x, p in zip(args[1:], f.params)]
+                em.note_call('map_slot_emplace')
+                return f"map_slot_emplace({objp}, {em.e(args[0])}, &((struct ASAM_CMP_Decoder_SegmentedPacket[1]){{ {mk}({', '.join(a)}) }})[0])"
             if name in ('emplace', 'try_emplace') and len(args) == 2:
                 # inserts only if the key is absent (result, an iterator/bool pair, must be discarded by the caller)
                 em.note_call('map_slot_emplace'); return f"map_slot_emplace({objp}, {em.e(args[0])}, {em.addr(args[1])})"
@@ -1226,6 +1280,12 @@ class StdRules:
         if cty == 'struct map_slot':
             if op == 'operator[]':
                 em.note_call('map_slot_index'); return f"(*map_slot_index({em.addr(args[0])}, {em.e(args[1])}))"
+        if cty == 'struct map_it':
+            if op == 'operator=': return f"({em.e(args[0])} = {em.e(args[1])})"
+            if op == 'operator!=': return f"(!map_it_eq({em.e(args[0])}, {em.e(args[1])}))"
+            if op == 'operator==': return f"map_it_eq({em.e(args[0])}, {em.e(args[1])})"
+            if op == 'operator->': em.note_call('map_it_deref'); return f"map_it_deref({em.the_map()}, {em.e(args[0])})"
+            if op == 'operator*': em.note_call('map_it_deref'); return f"(*map_it_deref({em.the_map()}, {em.e(args[0])}))"
         if cty == 'struct sv':
             if op == 'operator=': return f"({em.e(args[0])} = {em.e(args[1])})"
         raise Unsupported(f"std operator {cty} {op}")
@@ -1318,6 +1378,7 @@ def parse_specs(paths):
                     sect = ('ghost', st[len('@ghost? '):].strip()); cur.ghost.setdefault(sect[1], []); cur.optional = getattr(cur, 'optional', set()) | {sect[1]}; continue
                 if st.startswith('@ghost '): sect = ('ghost', st[len('@ghost '):].strip()); cur.ghost.setdefault(sect[1], []); continue
                 if st.startswith('@capture '): cur.capture.add(st.split()[1]); continue
+                if st == '@helper': cur.helper = True; continue      # proof convenience only: may be dropped (function inlined) if it no longer fits the code
                 if not st: continue
                 if sect[0] == 'contract': cur.contract.append((line, ln))
                 elif sect[0] == 'loop': cur.loops[sect[1]].append((line, ln))
@@ -1694,7 +1755,10 @@ class Generator:
         lines += ['{'] + g_entry + body + inner[1:-1] + g_exit + ['}']
         if em.spec:
             for k in em.spec.loops:
-                if ('loop', k) not in em.used_anchors: raise SystemExit(f"cxx2c: spec {f.cname}: @loop {k} matches no loop (extraction break)")
+                if ('loop', k) not in em.used_anchors:
+                    # the function has fewer loops than the spec expects (e.g. a byte loop replaced by memcmp): nothing to apply the loop contract to;
+                    # the function contract is still enforced on the new body
+                    self.report.setdefault('unused_loop_contracts', []).append(f"{f.cname}#{k}")
             for a in em.spec.ghost:
                 if ('ghost', a) not in em.used_anchors:
                     if a in getattr(em.spec, 'optional', set()):
@@ -1820,7 +1884,7 @@ def emit_types(gen):
         return res
     # topological order by by-value use
     names = {cname(q): q for q in texts if texts[q] is not None and q not in anon_members}
-    pseudo = {'map_slot': 'struct map_slot { struct ASAM_CMP_Decoder_SegmentedPacket value; uint8_t present; struct ASAM_CMP_Decoder_Endpoint key; };'}
+    pseudo = {'map_slot': 'struct map_slot { struct ASAM_CMP_Decoder_SegmentedPacket value; uint8_t present; struct ASAM_CMP_Decoder_Endpoint key; size_t epoch; /* ghost: bumped by every erase (iterator invalidation) */ };\nstruct map_it { uint8_t at_end; size_t epoch; };'}
     items = collections.OrderedDict()
     for cn, q in names.items(): items[cn] = texts[q]
     if 'ASAM_CMP_Decoder_SegmentedPacket' in items: items['map_slot'] = pseudo['map_slot']
@@ -1843,9 +1907,9 @@ def emit_types(gen):
 
 MODELS_INCLUDE = '#include "models.h"'
 MODEL_FUNCTIONS = ['verif_memcpy', 'vec_u8_make_n', 'vec_u8_copy', 'vec_u8_resize', 'vec_u8_resize_val', 'vec_u8_assign_n', 'vec_u8_assign_copy', 'vec_frames_push_back',
-                   'sv_find', 'sv_from_cstr', 'str_from_int', 'map_slot_index', 'map_slot_erase']
+                   'sv_find', 'sv_from_cstr', 'str_from_int', 'map_slot_index', 'map_slot_erase', 'map_slot_find', 'map_slot_erase_it', 'map_it_deref']
 
-def run(ast_dir, spec_paths, excluded_path, out_c, out_map, out_report, layouts_path=None):
+def run(ast_dir, spec_paths, excluded_path, out_c, out_map, out_report, layouts_path=None, drop=()):
     ctx = Ctx()
     excluded = {}
     if excluded_path and os.path.exists(excluded_path):
@@ -1855,6 +1919,14 @@ def run(ast_dir, spec_paths, excluded_path, out_c, out_map, out_report, layouts_
             nm, _, why = ln.partition(' ')
             excluded[nm] = why.strip()
     fnspecs, harnesses = parse_specs(spec_paths)
+    helper_specs = sorted(k for k, v in fnspecs.items() if getattr(v, 'helper', False))
+    dropped = []
+    for nm in drop:
+        # a helper contract that does not fit the current code any more: the helper is verified INLINED in its callers instead
+        if nm in fnspecs and getattr(fnspecs[nm], 'helper', False):
+            del fnspecs[nm]; dropped.append(nm)
+            harnesses = [h for h in harnesses if h['enforce'] != nm]
+            for h in harnesses: h['replace'] = [x for x in h['replace'] if x != nm]
     tus = []
     for fn in sorted(os.listdir(ast_dir)):
         if not fn.endswith('.json'): continue
@@ -1954,10 +2026,17 @@ def run(ast_dir, spec_paths, excluded_path, out_c, out_map, out_report, layouts_
     cur = None
     for i, l in enumerate(flat, 1):
         m = re.match(r'^/\* (.*) : .* \*/$', l)
+    # spec keys without target: an extraction break, except for @helper contracts (e.g. of construction wrappers the translator generates on demand):
+    # a helper that the current code does not have any more needs no contract
+    missing_all = [k for k in fnspecs if k not in gen.used_specs]
+    missing = [k for k in missing_all if not getattr(fnspecs[k], 'helper', False)]
+    for nm in missing_all:
+        if nm in missing: continue
+        dropped.append(nm)
+        harnesses = [h for h in harnesses if h['enforce'] != nm]
+        for h in harnesses: h['replace'] = [x for x in h['replace'] if x != nm]
     json.dump({'lines': linemap, 'harnesses': harnesses, 'slices': slices}, open(out_map, 'w'), indent=0)
-    # spec keys without target
-    missing = [k for k in fnspecs if k not in gen.used_specs]
-    rep = {'translated': gen.report['translated'], 'skipped': gen.report['skipped'], 'excluded': gen.report['excluded'],
+    rep = {'unused_loop_contracts': gen.report.get('unused_loop_contracts', []), 'helper_specs': helper_specs, 'dropped_helper_contracts': dropped, 'translated': gen.report['translated'], 'skipped': gen.report['skipped'], 'excluded': gen.report['excluded'],
            'spec_without_target': missing, 'n_records': len(ctx.records), 'n_enums': len(ctx.enums),
            'cnames': {f.cname: {'q': f.q, 'type': f.type_str, 'has_body': f.body is not None} for f in ctx.funcs.values() if f.cname}}
     for nm in gen.helper_protos: rep['cnames'][nm] = {'q': nm + ' (generated helper)', 'type': gen.helper_protos[nm], 'has_body': True}
